@@ -151,6 +151,10 @@ def gen_world(rs: int, P: dict) -> dict:
     elif nm_ < 0.4:
         # unusual but valid ids: numeric-looking strings, ids that are prefixes of each other, separators, spaces, non-ASCII, long
         names = (["1", "01", "10", "A", "AA", "A-1", "A/1", "a b", "\u00c4", "x" * 30, "0", "-1"] + ["n%d" % i_ for i_ in range(n_st)])[:n_st]
+    elif nm_ < 0.44:
+        # ids that differ only by surrounding whitespace / letter case (badly cleaned import files): different stations all the same
+        names = (["PS-1", "PS-1 ", " PS-1", "ps-1", "PS-1\n", "PS-1\t", "Ps-1"] + ["n%d" % i_ for i_ in range(n_st)])[:n_st]
+        r.shuffle(names)
     party_kind = wchoice(r, P["party"])
     sorted_party = party_kind in ("greedy", "rr")
     stations = []
@@ -465,6 +469,18 @@ def gen_world(rs: int, P: dict) -> dict:
             k = rr2.choice(cons)
             rc.append({"t": rr2.randint(1, last), "name": k["name"],
                        "limit": max(1.0, round(k["limit"] * rr2.choice([0.4, 0.6, 0.8, 1.25, 1.6, 2.5]), 1))})
+        rrw = sub(rs, "reconfig_rewire")
+        if rrw.random() < P.get("reconfig_rewire", 0.25):
+            # the operator moves a station onto / off a feeder: update_constraint under the same name with another set of stations
+            rcw = rrw.choice(rc)
+            kc_ = next(k_ for k_ in cons if k_["name"] == rcw["name"])
+            co_ = dict(kc_["coeffs"])
+            others_ = [s_["id"] for s_ in stations if s_["id"] not in co_]
+            if others_ and (len(co_) < 2 or rrw.random() < 0.6):
+                co_[rrw.choice(others_)] = rrw.choice([1, 1, -1, 0.5])
+            elif len(co_) >= 2:
+                co_.pop(rrw.choice(sorted(co_)))
+            rcw["coeffs"] = co_
         ras = sub(rs, "reconfig_assign")
         if ras.random() < P.get("reconfig_assign", 0.2):
             # the operator overwrites the network's public limits vector (network.magnitudes = new array) instead of calling
@@ -476,6 +492,11 @@ def gen_world(rs: int, P: dict) -> dict:
             rrm.choice(rc)["op"] = "remove"
         sc["reconfig"] = sorted(rc, key=lambda x: x["t"])
     place_crash_interventions(rs, sc, P)
+    rld = sub(rs, "departure_set_late")
+    if rld.random() < P.get("departure_set_late", 0.06) and P["net"] != "stochastic":
+        for s_ in sessions:
+            if rld.random() < 0.6 and not s_.get("battery_of"):
+                s_["departure_set_late"] = rld.randint(1, 9)       # built with a departure this much later, then corrected via the setter
     if sub(rs, "late_fill").random() < P.get("late_fill", 0.06):
         sc["sim"]["late_fill"] = True
     rmon = sub(rs, "monitor")
@@ -497,6 +518,8 @@ def constraints_at(sc, t):
                         cons[i] = dict(c, limit=r["limit"])      # (the row stays where it is)
                         break
                     c = dict(cons.pop(i), limit=r["limit"])
+                    if r.get("coeffs") is not None and r.get("op") != "remove":
+                        c["coeffs"] = dict(r["coeffs"])
                     if r.get("op") != "remove":
                         cons.append(c)
                     break
